@@ -510,6 +510,22 @@ def run_child(scenario_fn, watch, fault, bufsizes, name_seed, report_fd, exdev=F
             pass
         tracer.open_log(logpath)
         signal.signal(signal.SIGTERM, signal.SIG_DFL)  # whatever the harness process had installed
+        # whatever randomness a producer puts into scratch names (uuid4, os.urandom, random, secrets) is a
+        # function of the scenario: the same positions mean the same calls in every run
+        import random as _random
+        import uuid as _uuid
+        _rnd = _random.Random(name_seed ^ 0x5eed)
+        _random.seed(name_seed)
+        os.urandom = lambda n: bytes(_rnd.getrandbits(8) for _ in range(n))
+        _uuid.uuid4 = lambda: _uuid.UUID(int=_rnd.getrandbits(128), version=4)
+        _uuid.uuid1 = lambda *a, **k: _uuid.UUID(int=_rnd.getrandbits(128), version=1)
+        try:
+            import secrets as _secrets
+            _secrets.token_hex = lambda n=16: os.urandom(n).hex()
+            _secrets.token_bytes = lambda n=32: os.urandom(n)
+            _secrets.token_urlsafe = lambda n=32: os.urandom(n).hex()
+        except Exception:  # noqa: BLE001
+            pass
         try:
             # a producer that spins (a retry loop that never ends, with sleeps being no-ops here) must not
             # outlive the check as an orphan: the kernel ends this child after 10 minutes of CPU time
